@@ -47,7 +47,12 @@ class IndependentMultitaskVariationalStrategy(_VariationalStrategy):
         return self.base_variational_strategy.variational_params_initialized
 
     def kl_divergence(self):
-        return super().kl_divergence().sum(dim=self.task_dim)
+        kl = super().kl_divergence()
+        task_dim = self.task_dim if self.task_dim < 0 else self.task_dim - kl.dim()
+        if kl.dim() + task_dim < 0:
+            # task_dim lies outside the batch shape of the base strategy: one latent GP is shared by all tasks
+            return kl
+        return kl.sum(dim=task_dim)
 
     def __call__(self, x, task_indices=None, prior=False, **kwargs):
         r"""
